@@ -199,3 +199,10 @@ func IteDec(c bool, a, b sdkmath.LegacyDec) sdkmath.LegacyDec {
 	}
 	return b
 }
+
+// Debug prints a value during native replay (no-op under the engine).
+func Debug(what string, v interface{}) {
+	if os.Getenv("VERIF_DEBUG") != "" {
+		fmt.Printf("VERIF-DEBUG %s: %v\n", what, v)
+	}
+}
